@@ -3,6 +3,8 @@ C02 — Handles are independent: no edit or drop is visible through another hand
 -/
 import HipVerif.Lemmas.CoreRun
 import HipVerif.Lemmas.SpecFrame
+import HipVerif.Lemmas.CoreExtraB
+import HipVerif.Audit.Reexport
 
 namespace HipVerif.Props.C02
 open HipVerif.Core HipVerif.Spec.Std
@@ -27,6 +29,24 @@ theorem borrow_untouched (cfg : Cfg) (s : State) (ops : List Op) : (run cfg s op
 theorem survives_source_drop (cfg : Cfg) (s : State) (h k : Nat) (w : Wf cfg s) (hk : k ≠ h) :
     sget (abs (step cfg s (.drop h)).1) k = sget (abs s) k ∧ Wf cfg (step cfg s (.drop h)).1 :=
   ⟨frame cfg s (.drop h) k w trivial (by simp [writes, hk]), wf_step cfg s _ w⟩
+
+/-- `as_mut_slice` (and `as_mut_str`, `as_mut_ptr`) returning `Some` means the value is not borrowed
+and NO other live value shares its buffer. -/
+reexport HipVerif.Core.asMut_grant_sound as mut_grant_sound
+
+/-- a refusal leaves everything unchanged -/
+reexport HipVerif.Core.asMut_refused_unchanged as mut_refused_unchanged
+
+/-- `into_vec` / `into_string` succeed exactly for the sole owner at offset 0; otherwise the value is
+handed back unchanged. -/
+reexport HipVerif.Core.intoVec_ok_iff as into_vec_ok_iff
+reexport HipVerif.Core.intoVec_refused_unchanged as into_vec_refused_unchanged
+
+/-- an append happens in place only when no other value shares the buffer -/
+reexport HipVerif.Core.push_in_place_iff_sole as push_in_place_iff_sole
+
+/-- a uniqueness test that answers `true` on a live buffer means exactly one handle refers to it -/
+reexport HipVerif.Core.ownerUnique_sole as unique_test_sound
 
 /-! Non-vacuity: in the history below slot 2 is an offset slice of slot 0 sharing its buffer; after
 slot 0 is edited in place through `to_mut_slice` and dropped, slot 2 still reads its bytes. -/
